@@ -237,10 +237,10 @@ class ConcWorld(object):
         return bool(self._val(name, False))
 
     def choose(self, n, label="c"):
+        k = self.counters.get(label, 0) + 1     # (counted even when n <= 1: the symbolic engine names it too)
+        self.counters[label] = k
         if n <= 1:
             return 0
-        k = self.counters.get(label, 0) + 1
-        self.counters[label] = k
         v = int(self._val("sel_%s!%d" % (label, k), 0))
         return max(0, min(n - 1, v))
 
